@@ -64,7 +64,13 @@ func (e *Engine) CheckState() error {
 			return err
 		}
 		if e.Txn != nil {
-			if err := e.observe("open write transaction", txnObserver{e.Txn}, e.TxnM, true); err != nil {
+			// Txn.Iter() resets the transaction's writable-node cache, so observing through it after every
+			// step would hide bugs that need the cache to survive between writes: QuietTxn histories only
+			// use Len/Has/Route on the open transaction.
+			e.noIter = e.Cfg.QuietTxn
+			err := e.observe("open write transaction", txnObserver{e.Txn}, e.TxnM, true)
+			e.noIter = false
+			if err != nil {
 				return err
 			}
 		}
@@ -120,6 +126,9 @@ func (e *Engine) observeWith(name string, o observer, m Model, lenToo bool, pool
 				return fail("Has(%s, %q) = %v", mm, p, h)
 			}
 		}
+	}
+	if e.noIter {
+		return nil
 	}
 	it := o.Iter()
 	// All
